@@ -3,6 +3,7 @@ package main
 import (
 	"fmt"
 	"go/token"
+	"go/types"
 	"strings"
 
 	"golang.org/x/tools/go/ssa"
@@ -25,6 +26,32 @@ func checkC14(c *Check) {
 	}
 	c.Floor("renderer functions", 1, nr)
 	callbackPipeline(c)
+	deliveredEventUnmodified(c, t)
+}
+
+// deliveredEventUnmodified: the correlator renders (now, or later from the
+// hold queue) the event it was delivered; no function of the tracker reached
+// from the delivery stores into memory of that event (its fields, or the
+// slices and maps hanging off it, also through a struct copy).
+func deliveredEventUnmodified(c *Check, t *Tracker) {
+	p := c.P
+	n := 0
+	for _, ep := range t.EPs {
+		for _, prm := range ep.Params {
+			pt, ok := prm.Type().(*types.Pointer)
+			if !ok {
+				continue
+			}
+			nt := namedOf(pt.Elem())
+			if nt == nil || nt.Obj().Name() != "Event" || nt.Obj().Pkg() == nil || !strings.HasSuffix(nt.Obj().Pkg().Path(), "aucoalesce") {
+				continue
+			}
+			n++
+			at := storesIntoParam(p, ep, prm, 0)
+			c.Cond(at == "", "delivered-event-unmodified", "delivery "+ep.Name()+": parameter "+prm.Name(), p.Pos(ep.Pos()), "no store into the delivered audit event (or storage shared with it) in the delivery's cone", "the delivered audit event is rewritten before it is rendered or held (store at "+at+"): the UserAction no longer carries what the kernel recorded (e.g. its process arguments)")
+		}
+	}
+	c.Floor("deliveries taking an audit event", 1, n)
 }
 
 func renderer14(c *Check, fn *ssa.Function) {
@@ -481,15 +508,20 @@ func callbackPipeline(c *Check) {
 }
 
 
-// storesIntoParam: does fn (or a repository callee it passes the parameter
-// to) store into memory reached from the parameter? Returns a position.
-func storesIntoParam(p *Prog, fn *ssa.Function, prm *ssa.Parameter, depth int) string {
-	if depth > 3 {
+// storesIntoParam: does fn (or a repository callee or closure the value is
+// passed to) store into memory reached from the root value (a parameter or
+// a free variable)? Struct copies are followed: a store through a slice,
+// map or pointer loaded from a copy of the pointee writes the shared
+// storage. Returns a position, or "".
+func storesIntoParam(p *Prog, fn *ssa.Function, root ssa.Value, depth int) string {
+	if depth > 4 || fn == nil || fn.Blocks == nil {
 		return ""
 	}
-	found := ""
-	rootIs := func(addr ssa.Value) bool {
-		cur := addr
+	var derives func(v ssa.Value, seen map[ssa.Value]bool) bool
+	// walk follows an address/value expression down to its base; derefs
+	// counts the loads passed on the way.
+	walk := func(v ssa.Value) (base ssa.Value, derefs int) {
+		cur := v
 		for {
 			switch y := cur.(type) {
 			case *ssa.FieldAddr:
@@ -498,33 +530,123 @@ func storesIntoParam(p *Prog, fn *ssa.Function, prm *ssa.Parameter, depth int) s
 			case *ssa.IndexAddr:
 				cur = y.X
 				continue
-			case *ssa.UnOp:
+			case *ssa.Field:
 				cur = y.X
 				continue
+			case *ssa.Slice:
+				cur = y.X
+				continue
+			case *ssa.ChangeType:
+				cur = y.X
+				continue
+			case *ssa.UnOp:
+				if y.Op == token.MUL {
+					derefs++
+					cur = y.X
+					continue
+				}
 			}
-			break
+			return cur, derefs
 		}
-		return cur == ssa.Value(prm)
 	}
+	allocInitDerives := func(a *ssa.Alloc, seen map[ssa.Value]bool) bool {
+		rr := a.Referrers()
+		if rr == nil {
+			return false
+		}
+		for _, u := range *rr {
+			if st, ok := u.(*ssa.Store); ok && st.Addr == ssa.Value(a) && derives(st.Val, seen) {
+				return true
+			}
+		}
+		return false
+	}
+	derives = func(v ssa.Value, seen map[ssa.Value]bool) bool {
+		if seen[v] {
+			return false
+		}
+		seen[v] = true
+		base, _ := walk(v)
+		if base == root {
+			return true
+		}
+		switch b := base.(type) {
+		case *ssa.Alloc:
+			return allocInitDerives(b, seen)
+		case *ssa.Phi:
+			for _, e := range b.Edges {
+				if derives(e, seen) {
+					return true
+				}
+			}
+		}
+		return false
+	}
+	// writesShared: a store through addr writes memory reachable from root
+	writesShared := func(addr ssa.Value) bool {
+		base, derefs := walk(addr)
+		if base == root {
+			// root is a pointer (or a struct value whose reference fields were dereferenced)
+			switch root.Type().Underlying().(type) {
+			case *types.Pointer, *types.Slice, *types.Map:
+				return true
+			}
+			return derefs > 0
+		}
+		switch b := base.(type) {
+		case *ssa.Alloc:
+			if derefs == 0 {
+				return false // the local variable itself
+			}
+			return allocInitDerives(b, map[ssa.Value]bool{})
+		case *ssa.Phi:
+			return derives(b, map[ssa.Value]bool{})
+		}
+		return false
+	}
+	found := ""
 	allInstrs(fn, func(in ssa.Instruction) {
 		switch x := in.(type) {
 		case *ssa.Store:
-			if rootIs(x.Addr) {
+			if writesShared(x.Addr) {
 				found = p.InstrPos(in)
 			}
 		case *ssa.MapUpdate:
-			if rootIs(x.Map) {
+			if derives(x.Map, map[ssa.Value]bool{}) {
 				found = p.InstrPos(in)
 			}
-		case ssa.CallInstruction:
-			sc := staticCallee(x.Common())
-			if sc == nil || !InRepo(sc) || sc.Blocks == nil {
+		case *ssa.MakeClosure:
+			cf, ok := x.Fn.(*ssa.Function)
+			if !ok {
 				return
 			}
-			for i, a := range x.Common().Args {
-				if a == ssa.Value(prm) && i < len(sc.Params) {
-					if at := storesIntoParam(p, sc, sc.Params[i], depth+1); at != "" {
+			for i, b := range x.Bindings {
+				if i < len(cf.FreeVars) && derives(b, map[ssa.Value]bool{}) {
+					if at := storesIntoParam(p, cf, cf.FreeVars[i], depth+1); at != "" {
 						found = at
+					}
+				}
+			}
+		case ssa.CallInstruction:
+			var callees []*ssa.Function
+			if sc := staticCallee(x.Common()); sc != nil {
+				callees = []*ssa.Function{sc}
+			} else {
+				callees = p.dynCallees(x)
+			}
+			args := x.Common().Args
+			if x.Common().IsInvoke() {
+				args = append([]ssa.Value{x.Common().Value}, args...)
+			}
+			for _, sc := range callees {
+				if !InRepo(sc) || sc.Blocks == nil {
+					continue
+				}
+				for i, a := range args {
+					if i < len(sc.Params) && derives(a, map[ssa.Value]bool{}) {
+						if at := storesIntoParam(p, sc, sc.Params[i], depth+1); at != "" {
+							found = at
+						}
 					}
 				}
 			}
